@@ -285,3 +285,25 @@ Qed.
 Lemma ty_size_S t : exists n, ty_size t = S n.
 Proof. destruct t; simpl; eauto. Qed.
 
+Lemma conv_null_dyn v t : good v = true -> conv v t = COk (VNull TDyn) -> t = TDyn.
+Proof.
+  intros G H. destruct (ty_eqb t TDyn) eqn:T. { destruct t; try discriminate; reflexivity. } exfalso.
+  unfold conv in H.
+  destruct v; try (rewrite good_VMark in G; discriminate); try (rewrite good_VUnk in G; discriminate);
+    cbn [convert] in H;
+    (match type of H with (if ?c then _ else _) = _ => destruct c eqn:C end;
+     [ inversion H; subst; simpl in C; destruct t; discriminate | ]).
+  all: destruct t; try discriminate T.
+  all: match type of H with (if ?c then _ else _) = _ => destruct c; try discriminate end; cbn [negb] in H; try discriminate.
+  all: try (match type of H with context [all_ok ?l] =>
+         destruct (all_ok l) as [[vs|]|?] eqn:E; try discriminate;
+         try exact (all_ok_inr _ _ _ E H) end;
+       destruct (has_dyn _); discriminate).
+  - destruct (str_to_num s); discriminate.
+  - repeat match type of H with (if ?c then _ else _) = _ => destruct c end; discriminate.
+  - cbn [ty_size] in H. inversion H as [D]. destruct t0; try discriminate D; destruct (_ =? _)%nat; discriminate D.
+  - cbn [ty_size] in H. inversion H as [D]. destruct t0; try discriminate D; destruct (_ =? _)%nat; discriminate D.
+  - cbn [ty_size] in H. inversion H as [D]. destruct t0; try discriminate D; destruct (_ =? _)%nat; discriminate D.
+  - cbn [ty_size] in H. inversion H as [D]. destruct t0; try discriminate D; destruct (_ =? _)%nat; discriminate D.
+  - cbn [ty_size] in H. inversion H as [D]. destruct t0; try discriminate D; destruct (_ =? _)%nat; discriminate D.
+Qed.
